@@ -555,7 +555,7 @@ def random_programs(rnd, n):
     return out
 
 
-def random_struct_programs(rnd, n):
+def random_struct_programs(rnd, n, randsz=False):
     """seeded random *structured* programs over unsigned 8-bit fields and fixed-size lists: foreach bodies mixing element,
     index, neighbour, part-select, other lists' reductions, index-dependent ranges, nested conditions; unique; reductions used
     several times; list operations between calls.  Every piece is inside F by construction (unsigned, equal widths; signed
@@ -607,26 +607,29 @@ def random_struct_programs(rnd, n):
         return out_b
     for i in range(n):
         nl = rnd.randint(2, 4)
-        fields = [["l", "list", ["u", 8], nl, True, False], ["m", "list", ["u", 8], 2, True, False], fld("a", ("u", 8)), fld("b", ("u", 8)),
+        fields = [["l", "list", ["u", 8], 0 if randsz else nl, True, randsz], ["m", "list", ["u", 8], 2, True, False], fld("a", ("u", 8)), fld("b", ("u", 8)),
                   fld("w", ("u", 16)), fld("n", ("u", 8), False)]
         st = []
+        if randsz:
+            st.append(rnd.choice([E(["<=", ["size", ["l"]], lit(rnd.randint(2, 4))]), E(["==", ["size", ["l"]], lit(rnd.randint(0, 3))]),
+                                  E(["in", ["size", ["l"]], [lit(0), lit(rnd.randint(1, 4))]]), E(["<", ["size", ["l"]], ["+", ["ps", nn, 1, 0], lit(1)]])]))
         for _ in range(rnd.randint(1, 3)):
             k = rnd.random()
             if k < 0.5:
                 st.append(["foreach", ["l"], "i", body()])
             elif k < 0.6:
-                st.append(["unique", [["list", ["l"]]]] if rnd.random() < 0.5 else ["unique", [a, b, F("l", 0)]])
+                st.append(["unique", [["list", ["l"]]]] if rnd.random() < 0.5 else ["unique", [a, b, F("m", 0) if randsz else F("l", 0)]])
             elif k < 0.75:
                 st.append(E([rnd.choice(ops_c), rnd.choice([SL, SM]), rnd.choice([lit(rnd.randint(0, 600)), w, a])]))
             elif k < 0.85:
-                st.append(E([rnd.choice(ops_c), rnd.choice([a, b]), rnd.choice([SM, F("l", rnd.randint(0, nl - 1)), ["size", ["l"]]])]))
+                st.append(E([rnd.choice(ops_c), rnd.choice([a, b]), rnd.choice([SM, F("m", 1) if randsz else F("l", rnd.randint(0, nl - 1)), ["size", ["l"]]])]))
             else:
-                st.append(["if", [[["<", nn, lit(2)], [E([rnd.choice(ops_c), a, F("m", 0)])]]], [E(["<", F("l", 0), b])]])
+                st.append(["if", [[["<", nn, lit(2)], [E([rnd.choice(ops_c), a, F("m", 0)])]]], [E(["<", F("m", 1) if randsz else F("l", 0), b])]])
         ops = [["set", ["top", "n"], rnd.choice([0, 1, 2, 3, 200])], ["randomize", ["top"]], ["set", ["top", "n"], rnd.choice([0, 1, 5])], ["randomize", ["top"]]]
         if rnd.random() < 0.5:
             ops += [["list_append", ["top", "l"], rnd.randint(0, 255)], ["randomize", ["top"]]]
-        ops.append(["randomize_with", ["top"], [E([rnd.choice(ops_c), a, rnd.choice([lit(100), SM, F("l", 0)])])]])
-        out.append({"tag": "random_struct", "desc": "seeded random structured program #%d" % i, "prog": one_class(fields, st), "world": [["top", "obj", "Top"]], "ops": ops})
+        ops.append(["randomize_with", ["top"], [E([rnd.choice(ops_c), a, rnd.choice([lit(100), SM, F("m", 0) if randsz else F("l", 0)])])]])
+        out.append({"tag": "random_struct" + ("_randsz" if randsz else ""), "desc": "seeded random structured program #%d" % i, "prog": one_class(fields, st), "world": [["top", "obj", "Top"]], "ops": ops})
     return out
 
 
@@ -1581,6 +1584,8 @@ def c04_programs(tier, sd):
                        ["list_append", ["top", "l"], 9], ["list_append", ["top", "l"], 8], ["vsc_randomize", [["top"]]]]
                 out.append({"tag": "randsz:" + bn, "desc": "randsz %s%d size %s body %s" % (ety[0], ety[1], sc, bn), "prog": pr,
                             "world": [["top", "obj", "Top"]], "ops": ops})
+    # seeded random structured programs over a random-size list
+    out += random_struct_programs(rnd, 30 if tier == "quick" else 2000, randsz=True)
     # fixed-size lists with list operations between calls
     for ety in (("u", 8), ("s", 4)):
         for bn, body in bodies:
